@@ -31,6 +31,25 @@ def exc_site(e: BaseException) -> str:
     return site
 
 
+_VERIF = os.path.realpath(env.VERIF_ROOT)
+
+
+def crash_owner(e: BaseException):
+    """Who raised an exception that escaped a check: walking from the innermost frame outwards, the first frame that
+    belongs either to adaptix (-> ``("adaptix", site)``) or to the harness (-> ``("harness", site)``); frames of the
+    standard library / third-party code called by either are skipped."""
+    for fs in reversed(traceback.extract_tb(e.__traceback__)):
+        fn = fs.filename
+        if fn.startswith("<adaptix generated"):
+            return "adaptix", "<generated>:" + _DIGITS.sub("N", fs.name)
+        rp = os.path.realpath(fn) if os.path.exists(fn) else fn
+        if rp.startswith(_SRC):
+            return "adaptix", f"{os.path.basename(fn)}:{fs.name}"
+        if rp.startswith(_VERIF) and os.sep + ".deps" + os.sep not in rp:
+            return "harness", f"{os.path.basename(fn)}:{fs.name}"
+    return "unknown", "?"
+
+
 def is_group(e: BaseException) -> bool:
     return isinstance(e, BaseExceptionGroup)
 
